@@ -22,7 +22,7 @@ RULE = ('one workbook per case: generated criteria columns + target column and u
         'all-numeric column (or the ranges are misaligned); distinct = distinct (columns, formula)')
 ASSUMPTIONS = ['blank cells inside a criteria range are only asserted under text-equality, <>text and pattern criteria',
                'patterns are asserted over text/blank cells only; numeric-looking text cells are not placed under numeric criteria',
-               'target ranges hold numbers and blanks only; date criteria are not generated',
+               'target ranges hold numbers and blanks (for SUMIF / SUMIFS also texts, which are left out); what AVERAGEIFS makes of a text in its target is not asserted; date criteria are not generated',
                'criterion texts are words (some of which a lenient date parser reads as dates: sat, jan, may) and texts that denote numbers; date texts such as 2021-06-25 are not generated',
                'an empty AVERAGEIFS selection and misaligned ranges must give an error outcome (error string or exception)']
 
@@ -30,6 +30,8 @@ COLS = 'ABCDEFGH'
 WORDS = ['apple', 'Apple', 'APPLE', 'pear', 'Pear', 'plum', 'kiwi', 'Kiwi', 'grape', 'a?c', 'a*c', 'abc', 'aXc', 'axyc', 'zz', 'x',
          # words that a lenient date parser reads as dates: they are texts, equal only to themselves (whatever their case)
          'a~bcd', '~xy', 'a~b',
+         # blanks at the ends are part of a text
+         ' x', 'x ', ' X', 'pear ', ' pear',
          'sat', 'Saturday', 'may', 'May', 'jan', 'January', 'mon', 'Monday', 'a1', 'pm', 'noon', 'today']
 
 
@@ -153,7 +155,8 @@ def crit_text(crit, cellref=None):
         # a text that denotes a number ("3", "-3", "+2.5") selects the cells that hold this number
         return f'"{"+" if crit.get("plus") and v >= 0 else ""}{v!r}"'
     if form == 'op-num':
-        return f'"{crit["op"]}{v!r}"'
+        # blanks around the number are no part of it: "> 2" is > 2
+        return f'"{crit["op"]}{crit.get("padl", "")}{v!r}{crit.get("padr", "")}"'
     if form == 'amp-num':
         return f'"{crit["op"]}"&{cellref}'
     if form == 'join-num':
@@ -281,8 +284,8 @@ def build(spec):
                 continue
             sel = selected(spec, pairs)
             tcol = cols[target] if target is not None else cols[pairs[0]['col']]
-            if fn != 'COUNTIFS' and any(ckind(v) not in ('num', 'blank') for v in tcol):
-                raise Skip('non-numeric target')
+            if fn not in ('COUNTIFS', 'SUMIF', 'SUMIFS') and any(ckind(v) not in ('num', 'blank') for v in tcol):
+                raise Skip('non-numeric target')   # SUMIF / SUMIFS leave the texts of the sum range out like SUM does
             picked = [tcol[i] for i in range(len(sel)) if sel[i]]
             nums = [v for v in picked if ckind(v) == 'num']
             if fn == 'SUMIF':
@@ -361,7 +364,11 @@ def strategy():
             cols.append([draw(cellst) for _ in range(height)])
         ncrit = len(cols)
         target = ncrit
-        cols.append([draw(st.one_of(st.integers(1, 50), st.integers(-9, 50), st.none(), st.sampled_from([0.5, 2.25, 0, 0, 0.0, -1.5]))) for _ in range(height)])
+        tcell = st.one_of(st.integers(1, 50), st.integers(-9, 50), st.none(), st.sampled_from([0.5, 2.25, 0, 0, 0.0, -1.5]))
+        if draw(st.integers(0, 3)) == 0:
+            # remarks inside the target column: a text there is left out of a sum, and must not shift the cells behind it
+            tcell = st.one_of(tcell, tcell, tcell, st.sampled_from(['n/a', 'x', '-']))
+        cols.append([draw(tcell) for _ in range(height)])
         # a second target column (for two-column target areas and as the landing zone of re-shaped SUMIF sum ranges)
         cols.append([draw(st.one_of(st.integers(51, 99), st.none())) for _ in range(height)])
 
@@ -377,7 +384,8 @@ def strategy():
                 choices += [{'form': 'num', 'value': n, 'via': via}] * 2
                 choices += [{'form': 'op-num', 'op': draw(st.sampled_from(['>', '<', '>=', '<=', '<>'])), 'value': n},
                             {'form': 'amp-num', 'op': draw(st.sampled_from(['>', '<', '>=', '<=', '<>'])), 'value': n}]
-                choices += [{'form': 'op-num', 'op': draw(st.sampled_from(['>', '<', '>=', '<=', '<>'])), 'value': n},
+                choices += [{'form': 'op-num', 'op': draw(st.sampled_from(['>', '<', '>=', '<=', '<>', '='])), 'value': n,
+                             'padl': draw(st.sampled_from(['', ' ', ' '])), 'padr': draw(st.sampled_from(['', '', ' ']))},
                             {'form': 'eq-num', 'value': n}, {'form': 'text-num', 'value': n, 'plus': draw(st.booleans())},
                             (lambda h_, t_: {'form': 'join-num', 'op': draw(st.sampled_from(['>', '<', '>=', '<=', '<>', '='])), 'head': h_, 'tail': t_,
                                              'value': int(f'{h_}{t_}')})(draw(st.integers(1, 9)), draw(st.integers(0, 9))),
